@@ -1194,9 +1194,13 @@ class CodeGenerator(StructuredCodeGenerator):
         sym_table = self.sym_kind_table.per_phase_table.get(
                 self.current_function, {})
 
+        # Every local is released here, not only the ones that are never
+        # used: a step may leave early (fail, phase switch), may skip the
+        # guarded statement that holds the last use, and last uses inside of
+        # loops are not released on the spot. The deinit routines do nothing
+        # for storage that was already released.
         for identifier, sym_kind in sorted(sym_table.items()):
-            if (identifier, self.current_function) not in self.last_used_stmt_table:
-                self.emit_variable_deinit(identifier, sym_kind)
+            self.emit_variable_deinit(identifier, sym_kind)
 
         # }}}
 
@@ -2095,6 +2099,7 @@ class CodeGenerator(StructuredCodeGenerator):
         self.emitter.emit_else()  # pylint:disable=no-member
 
     def emit_for_begin(self, loop_var_name, lbound, ubound):
+        self._loop_depth = getattr(self, "_loop_depth", 0) + 1
         em = FortranDoEmitter(
                 self.emitter,
                 self.name_manager[loop_var_name],
@@ -2106,6 +2111,7 @@ class CodeGenerator(StructuredCodeGenerator):
 
     def emit_for_end(self, loop_var_name):
         self.emitter.__exit__(None, None, None)
+        self._loop_depth -= 1
 
     def emit_assign_expr(self, assignee_sym, assignee_subscript, expr):
         from dagrt.data import Array, UserType
@@ -2287,6 +2293,11 @@ class CodeGenerator(StructuredCodeGenerator):
         :attr:`current_function`. If so, emit code to deallocate that variable.
         """
         from dagrt.utils import is_state_variable
+
+        if getattr(self, "_loop_depth", 0) > 0:
+            # The statement runs once per iteration: what it uses last is
+            # still needed by the next one. The exit label releases it.
+            return
 
         read_and_written = inst.get_read_variables() | inst.get_written_variables()
 
